@@ -487,7 +487,7 @@ def write_evidence_file(tier, seed, jobs, recs, audit, wall, reported, stopped, 
                 "runs_with_address_reuse_override": sum(1 for r in ok if any("address-reuse" in f for f in r["job"].get("extra_flags", []))),
                 "reseed_threshold_crossings(64KiB per thread)": sum(1 for r in ok if runner.words_of(r["job"]) * 8 // max(1, r["job"]["K"] + r["job"]["main"]) >= 65536),
                 "fault_sites_in_volute_code": 0,
-                "io_errors/short_writes/crash_restart/clock_skew/message_loss": "not injectable: the surface has no site for them (DESIGN 3.3)",
+                "io_errors/short_writes/crash_restart/message_loss": "not injectable: the surface has no site for them (DESIGN 3.3)",
             },
             "draws_per_type_size_threads": per,
             "literal_clauses_completed": literal,
